@@ -2,7 +2,10 @@
     generates a leaf or leaf-list whose type is a typedef chain with restriction expressions,
     loads it with parser.LoadModuleFromString, writes candidate values through several write paths
     of the real library into a map-backed node and records what happened; everything below is
-    evaluated by Coq. *)
+    evaluated by Coq.  The leaf is alone in its module or one of several string leaves whose
+    pattern statements repeat the same expression with other invert-match modifiers: a case carries
+    the leaf's OWN chain only, so the model and the spec state that nothing of a sibling statement
+    (same text or not) takes part in the decision. *)
 From Coq Require Import ZArith List Bool Lia Strings.Byte.
 From YV Require Import Base.Verdict Restrict.RangeParse Restrict.Model Restrict.Spec Restrict.Proofs.
 Import ListNotations.
